@@ -8,17 +8,17 @@ import (
 
 // Operation kinds announced at scheduling points.
 const (
-	KStart    = iota // first step of a thread
-	KAtomic          // sync/atomic operation on a cell
-	KLock            // Mutex.Lock (blocking)
-	KUnlock          // Mutex.Unlock
-	KOnce            // Once.Do entry (blocks while another caller runs the function)
-	KOnceExit        // Once.Do function finished
-	KUser            // scheduling point placed by a driver callback
-	KAwait           // AwaitQuiescence
-	KWgWait          // WaitGroup.Wait
-	KWgAdd           // WaitGroup.Add/Done
-	KAtomicLoad      // sync/atomic load (a read of the cell)
+	KStart      = iota // first step of a thread
+	KAtomic            // sync/atomic operation on a cell
+	KLock              // Mutex.Lock (blocking)
+	KUnlock            // Mutex.Unlock
+	KOnce              // Once.Do entry (blocks while another caller runs the function)
+	KOnceExit          // Once.Do function finished
+	KUser              // scheduling point placed by a driver callback
+	KAwait             // AwaitQuiescence
+	KWgWait            // WaitGroup.Wait
+	KWgAdd             // WaitGroup.Add/Done
+	KAtomicLoad        // sync/atomic load (a read of the cell)
 )
 
 var kindNames = []string{"start", "atomic", "lock", "unlock", "once", "once-exit", "user", "await", "wg-wait", "wg-add", "atomic-load"}
